@@ -59,6 +59,9 @@ def make_pair(n, spec, massl, basis, nullpat, seed):
         idx = np.arange(n) + 3; N = n + 3
     elif nullpat == 'last3':
         idx = np.arange(n); N = n + 3
+    elif nullpat == 'scattered':                 # null amplitudes that do not come in complete (u, v, w) triples
+        idx = np.array([i for i in range(2 * n + 5) if i % 5 != 1][:n]); N = int(idx[-1]) + 1
+        N += (-N) % 3
     else:                                        # every fourth triple null
         idx = np.array([i + 3 * (i // 9) for i in range(n)]); N = int(idx[-1]) + 1
         N += (-N) % 3
@@ -73,19 +76,25 @@ def cases(tier, seed):
     sizes = [6, 9, 12, 30, 60] + ([120, 399] if tier == 'thorough' else [])
     for n, spec, massl, basis, nullpat, num, sparse, sort in itertools.product(
             sizes, ['separated', 'close', 'repeated', 'decades'], ['spd', 'scaled', 'tiny'], ['diag', 'rotations', 'generic'],
-            ['none', 'first3', 'last3', 'fourth'], [1, 3, 5, 25], [1, 0], [1, 0]):
+            ['none', 'first3', 'last3', 'fourth', 'scattered'], [1, 3, 5, 25], [1, 0], [1, 0]):
         if num > n - 2:
             continue
         if tier == 'quick':
-            if massl in ('scaled', 'tiny') and (basis != 'generic' or nullpat not in ('none', 'fourth')):
+            if massl in ('scaled', 'tiny') and (basis != 'generic' or nullpat not in ('none', 'fourth', 'scattered')):
                 continue
             if basis == 'rotations' and nullpat != 'none':
                 continue
-            if n in (9, 60) and (spec not in ('separated', 'close') or nullpat not in ('none', 'fourth')):
+            if n in (9, 60) and (spec not in ('separated', 'close') or nullpat not in ('none', 'fourth', 'scattered')):
                 continue
         out.append(dict(kind='pair', n=n, spec=spec, mass=massl, basis=basis, null=nullpat, num=num, sparse=sparse, sort=sort, seed=seed))
     for struct, sparse, num, mscale in itertools.product(['plate', 'cpanel', 'plate_reduced', 'assembly', 'bay'], [1, 0], [2, 5], [1.0, 1.0e-9]):
         out.append(dict(kind='struct', struct=struct, sparse=sparse, num=num, mscale=mscale, seed=seed))
+    # Panel.freq (second implementation): full product of its own switches
+    for model, geom, atype, sort, red, sparse, num in itertools.product(['plate', 'cpanel'], ['regular', 'near_square'], [4, 3], [1, 0], [0, 1],
+                                                                          [1, 0], [2, 6]):
+        if red and sparse:
+            continue                      # documented: only effective with the dense solver
+        out.append(dict(kind='pfreq', model=model, geom=geom, atype=atype, sort=sort, reduced=red, sparse=sparse, num=num, seed=seed))
     return out
 
 
@@ -154,11 +163,11 @@ def check_pair(case):
         if np.abs(np.sort(np.real(vals2[:kk])) * np.sqrt(s) - np.sort(np.real(vals[:kk]))).max() > 1e-6 * np.abs(vals[:kk]).max():
             fails.append(fail('scaling the mass by s does not scale the frequencies by 1/sqrt(s)', sig=None, case=case))
     # reduced_dof (dense path only, sizes multiple of 3): v,w block eigenpairs
-    if not fails and not case['sparse'] and case['sort'] and Kd.shape[0] % 3 == 0 and case['null'] == 'none':
+    if not fails and not case['sparse'] and case['sort'] and Kd.shape[0] % 3 == 0:
         try:
             vr, vecr = freq(K, M, silent=True, sparse_solver=False, sort=True, reduced_dof=True, num_eigvalues=case['num'])
             execs += 1
-            take = np.sort(np.r_[1:Kd.shape[0]:3, 2:Kd.shape[0]:3])
+            take = np.array([i for i in idx if i % 3 != 0])          # v and w amplitudes that carry mass
             from scipy.linalg import eigh
             wr = np.sqrt(np.abs(eigh(Kd[np.ix_(take, take)], Md[np.ix_(take, take)], eigvals_only=True)))
             kk = min(case['num'], len(vr), len(wr))
@@ -205,6 +214,13 @@ def check_struct(case):
                           reduced_dof=(st == 'plate_reduced' and not case['sparse']))
         if st != 'plate_reduced' or case['sparse']:
             judge(Kd, Md, vals, vecs, act, fails, dict(ctx, api='analysis.freq'), exact=ex, num=case['num'])
+        else:
+            # reduced problem: eigenpairs of the (v, w) block of the restrained plate (null columns do not come in triples)
+            actr = np.array([i for i in act if i % 3 != 0])
+            Kb, Mb = np.zeros_like(Kd), np.zeros_like(Md)
+            Kb[np.ix_(actr, actr)], Mb[np.ix_(actr, actr)] = Kd[np.ix_(actr, actr)], Md[np.ix_(actr, actr)]
+            exr = np.sqrt(np.abs(eigh(Kd[np.ix_(actr, actr)], Md[np.ix_(actr, actr)], eigvals_only=True)))
+            judge(Kb, Mb, vals, vecs, actr, fails, dict(ctx, api='analysis.freq reduced_dof'), exact=exr, num=case['num'])
         if panel is not None and st != 'plate_reduced' and case.get('mscale', 1.0) == 1.0:
             panel.freq(silent=True, sparse_solver=bool(case['sparse']))
             judge(Kd, Md, panel.eigvals, panel.eigvecs, act, fails, dict(ctx, api='Panel.freq'), exact=ex, num=case['num'])
@@ -213,5 +229,54 @@ def check_struct(case):
     return dict(fails=fails[:4], execs=2, transitions=2, nontrivial=1)
 
 
+def check_pfreq(case):
+    """Panel.freq with its own switches: analysis type 3 adds the constant pre-load matrix (sub-critical compression keeps K positive
+    definite), sort on/off, reduced_dof (dense), both solvers.  'near_square' = isotropic plate whose sides differ by 4e-5: the
+    (1,2)/(2,1) frequencies differ by a few hundredths of a rad/s."""
+    from scipy.linalg import eigh
+    fails = []
+    if case['geom'] == 'near_square':
+        cfg = dict(model=case['model'], a=0.5, b=0.50002, r=1.5, lam='iso', m=6, n=6, fbase='SSSS', seed=case['seed'])
+    else:
+        cfg = dict(model=case['model'], a=0.6, b=0.4, r=1.5, lam='cross_sym', m=6, n=5, fbase='SSSS', seed=case['seed'])
+    p = pan.make_panel(cfg)
+    p.num_eigvalues = case['num']
+    Kd, Md = pan.dense(p.calc_k0(silent=True)), pan.dense(p.calc_kM(silent=True))
+    if case['atype'] == 3:
+        # 40% of the critical load of the pattern (Nxx, Nyy) = (-1, 0.25)
+        p.Nxx, p.Nyy = -1.0, 0.25
+        G = pan.dense(p.calc_kG0(silent=True))
+        a0 = np.where(np.abs(Kd).sum(axis=0) != 0)[0]
+        mu = eigh(-G[np.ix_(a0, a0)], Kd[np.ix_(a0, a0)], eigvals_only=True)
+        lcr = 1.0 / mu.max()
+        p.Nxx, p.Nyy = -0.4 * lcr, 0.1 * lcr
+        Kd = Kd + pan.dense(p.calc_kG0(silent=True))
+    act = np.where(np.abs(Md).sum(axis=0) != 0)[0]
+    if case['reduced']:
+        act = np.array([i for i in act if i % 3 != 0])
+    w2 = eigh(Kd[np.ix_(act, act)], Md[np.ix_(act, act)], eigvals_only=True)
+    if w2.min() <= 0:
+        raise AssertionError('harness: pre-load is not sub-critical')
+    ex = np.sqrt(w2)
+    try:
+        p.freq(atype=case['atype'], silent=True, sparse_solver=bool(case['sparse']), sort=bool(case['sort']), reduced_dof=bool(case['reduced']))
+    except Exception as e:
+        return dict(fails=[fail('Panel.freq raised', sig=None, case=case, error=repr(e)[:300])], nontrivial=1)
+    vals, vecs = np.asarray(p.eigvals), np.asarray(p.eigvecs)
+    if vecs.shape[0] != Kd.shape[0]:
+        fails.append(fail('Panel.freq modes do not have one row per amplitude', sig=None, case=case, shape=list(vecs.shape)))
+        return dict(fails=fails, nontrivial=1)
+    if case['reduced']:
+        # eigenpairs of the (v, w) block: residual judged on that block, modes zero on the dropped u amplitudes
+        if np.abs(vecs[0::3, :]).max() != 0:
+            fails.append(fail('reduced_dof modes are not zero on the dropped amplitudes', sig=None, case=case))
+        Kb, Mb = np.zeros_like(Kd), np.zeros_like(Md)
+        Kb[np.ix_(act, act)], Mb[np.ix_(act, act)] = Kd[np.ix_(act, act)], Md[np.ix_(act, act)]
+        judge(Kb, Mb, vals, vecs, act, fails, dict(case=case, api='Panel.freq'), exact=ex, sort=bool(case['sort']), num=case['num'])
+    else:
+        judge(Kd, Md, vals, vecs, act, fails, dict(case=case, api='Panel.freq'), exact=ex, sort=bool(case['sort']), num=case['num'])
+    return dict(fails=fails[:4], execs=1, transitions=1, nontrivial=1)
+
+
 def check_case(case):
-    return check_pair(case) if case['kind'] == 'pair' else check_struct(case)
+    return dict(pair=check_pair, struct=check_struct, pfreq=check_pfreq)[case['kind']](case)
